@@ -56,6 +56,10 @@ func init() {
 					x.labels["tier"] = pickS(r, []string{"fe", "be", "fe2"})
 				}
 				md := Obj{"name": name, "annotations": Obj{tracerKey: fmt.Sprintf("t%d", i)}}
+				if r.Intn(5) == 0 {
+					x.ns = pickS(r, []string{"old", "prod", "default"})
+					md["namespace"] = x.ns
+				}
 				if len(x.labels) > 0 {
 					md["labels"] = toObj(x.labels)
 				}
@@ -86,6 +90,7 @@ func init() {
 			}
 			k := Obj{"resources": []interface{}{"res.yaml"}}
 			mode := r.Intn(4)
+			layerPrefix, layerNs := "", ""
 			var predict func(x *res, out Obj) (string, bool) // returns a description of the violation
 			var desc interface{}
 			switch mode {
@@ -102,15 +107,53 @@ func init() {
 					lsel = "tier=" + pickS(r, []string{"fe", "be"})
 					tgt["labelSelector"] = lsel
 				}
+				// a lower layer may have renamed and moved the resources: the selector's name pattern then matches the ORIGINAL
+				// or the CURRENT name, its namespace pattern the ORIGINAL or the CURRENT namespace — independently of each other
+				if r.Intn(2) == 0 {
+					if r.Intn(3) != 0 {
+						layerPrefix = pickS(r, []string{"pre-", "x", "my"})
+					}
+					if r.Intn(3) != 0 {
+						layerNs = pickS(r, []string{"prod", "old", "stage"})
+					}
+					if r.Intn(2) == 0 {
+						pat = pickS(r, []string{"pre-app", "xapp", "myapp", "pre-.*", "app", "web", "x.*", "pre-web"})
+						tgt["name"] = pat
+					}
+				}
+				nsSel := ""
+				if r.Intn(3) == 0 {
+					nsSel = pickS(r, []string{"prod", "old", "default", "stage", "pr.*", "pro"})
+					tgt["namespace"] = nsSel
+				} else if layerNs != "" && r.Intn(2) == 0 {
+					// the CURRENT namespace beside (often) the ORIGINAL name, or the other way round
+					nsSel = pickS(r, []string{layerNs, layerNs, "default"})
+					tgt["namespace"] = nsSel
+				}
 				k["patches"] = []interface{}{Obj{"target": tgt, "patch": "- op: add\n  path: /metadata/annotations/hit\n  value: \"1\"\n"}}
-				desc = map[string]interface{}{"mode": "patch-target", "target": tgt}
+				desc = map[string]interface{}{"mode": "patch-target", "target": tgt, "layerPrefix": layerPrefix, "layerNamespace": layerNs}
 				nameRe := regexp.MustCompile("^(?:" + pat + ")$")
+				var nsRe *regexp.Regexp
+				if nsSel != "" {
+					nsRe = regexp.MustCompile("^(?:" + nsSel + ")$")
+				}
+				eff := func(ns string) string {
+					if ns == "" {
+						return "default"
+					}
+					return ns
+				}
 				var kindRe *regexp.Regexp
 				if kindSel != "" {
 					kindRe = regexp.MustCompile("^(?:" + kindSel + ")$")
 				}
 				predict = func(x *res, out Obj) (string, bool) {
-					want := nameRe.MatchString(x.name) && (kindRe == nil || kindRe.MatchString(x.kind))
+					curNs := x.ns
+					if layerNs != "" {
+						curNs = layerNs
+					}
+					want := (nameRe.MatchString(x.name) || nameRe.MatchString(layerPrefix+x.name)) && (kindRe == nil || kindRe.MatchString(x.kind)) &&
+						(nsRe == nil || nsRe.MatchString(eff(x.ns)) || nsRe.MatchString(eff(curNs)))
 					if lsel != "" {
 						kv := strings.SplitN(lsel, "=", 2)
 						want = want && x.labels[kv[0]] == kv[1]
@@ -239,6 +282,25 @@ func init() {
 			fs.WriteFile("/w/res.yaml", []byte(sb.String()))
 			fs.WriteFile("/w/kustomization.yaml", kb)
 			input := map[string]string{"/w/res.yaml": sb.String(), "/w/kustomization.yaml": string(kb)}
+			if layerPrefix != "" || layerNs != "" {
+				// the resources live in a base that renames / moves them; the directive under test is in the overlay
+				base := Obj{"resources": []interface{}{"res.yaml"}}
+				if layerPrefix != "" {
+					base["namePrefix"] = layerPrefix
+				}
+				if layerNs != "" {
+					base["namespace"] = layerNs
+				}
+				bb, _ := yaml.Marshal(base)
+				k["resources"] = []interface{}{"base"}
+				kb, _ = yaml.Marshal(k)
+				fs = filesys.MakeFsInMemory()
+				fs.MkdirAll("/w/base")
+				fs.WriteFile("/w/base/res.yaml", []byte(sb.String()))
+				fs.WriteFile("/w/base/kustomization.yaml", bb)
+				fs.WriteFile("/w/kustomization.yaml", kb)
+				input = map[string]string{"/w/base/res.yaml": sb.String(), "/w/base/kustomization.yaml": string(bb), "/w/kustomization.yaml": string(kb)}
+			}
 			out, err, pnc := safeBuild(func() (string, error) { return runBuild(fs, "/w", nil) })
 			if pnc != nil {
 				o.note("panic", input)
